@@ -121,11 +121,22 @@ class C13(Check):
             us.append(var_unit(sp, False, True))
         us.append(var_unit(expr.by_name("three_zero"), False, True))
         if tier != "quick":
-            for sp in expr.generate(seed, 8):
-                if len(sp.states) <= 3 and len(sp.params) <= 3:
-                    for u in (var_unit(sp, False, False), var_unit(sp, True, False)):
+            for sp in expr.generate(seed, 24):
+                if len(sp.states) <= 3 and 1 <= len(sp.params) <= 3:
+                    for u in (var_unit(sp, False, False), var_unit(sp, True, False), var_unit(sp, False, True)):
                         u.optional = True
                         us.append(u)
+            # the library's own catalogue (small members): read back from the real objects
+            for nm in ("SIR", "SIS", "SIR_Birth_Death", "Lotka_Volterra", "FitzHugh", "SIS_Periodic", "Robertson"):
+                if nm in expr.CATALOGUE:
+                    try:
+                        sp = expr.catalogue(nm)
+                    except Exception:
+                        continue
+                    if len(sp.states) <= 3 and 1 <= len(sp.params) <= 4:      # (no parameters: no forward sensitivities to ask for)
+                        for u in (var_unit(sp, False, False), var_unit(sp, True, False)):
+                            u.optional = True
+                            us.append(u)
         return us
 
 
